@@ -386,7 +386,9 @@ def branch_recipe():
     fc = st.builds(lambda pre, acc, post: pre + [[acc]] + post,
                    st.lists(fillable_recipes(), max_size=2),
                    st.sampled_from(ACCS), st.lists(post_recipes(), max_size=2))
-    plain = st.lists(st.one_of(fillable_recipes(), post_recipes()), min_size=1, max_size=3)
+    # (no element with fill and request in a plain branch: a tuple holding one is a fill/request branch, whose other
+    #  elements must be convertible to FillInto - documented: "check seq's methods")
+    plain = st.lists(st.one_of(fillable_recipes(), post_recipes().filter(lambda r: r[0] != "frgroups")), min_size=1, max_size=3)
     return st.one_of(fc, plain)
 
 
